@@ -88,10 +88,60 @@ def judge(ctx, n, seq, layout=None, addressing='plain'):
     ctx.count('histories_checked')
 
 
+def judge_pool_clients(ctx, n, plan):
+    """Clients made by the public constructor `pytezos.using(shell='<network>.pool')` for a configured network of n addresses.
+    plan = list of (client number, outcome): requests are issued in that order, each by the named client; every client's own
+    i-th request must reach node i mod n, whatever other clients of the same network did before or in between."""
+    import pytezos
+    from pytezos.context import mixin
+    from pytezos.rpc.node import RpcError
+    net = 'rvnet%d' % n
+    uris = ['http://pool%d.test' % i for i in range(n)]
+    mixin.nodes[net] = list(uris)
+    state = {'o': 'ok'}
+
+    def handler(method, url, kwargs):
+        if state['o'] == 'ok':
+            return R.make_response(200, {'ok': 1})
+        if state['o'] == 'e500':
+            return R.make_response(500, [{'kind': 'permanent', 'id': 'node.x'}])
+        raise requests.exceptions.ConnectionError('refused')
+
+    t = R.Transport(handler)
+    clients, sent = {}, {}
+    case = {'pool_clients': True, 'nodes': n, 'plan': [list(p) for p in plan]}
+    ctx.case(('pool', n, tuple(plan)), nontrivial=len({c for c, _ in plan}) > 1)
+    ctx.count('pool_client_histories')
+    try:
+        with R.installed(t):
+            for c, o in plan:
+                if c not in clients:
+                    clients[c] = pytezos.pytezos.using(shell=net + '.pool')
+                    sent[c] = 0
+                state['o'] = o
+                before = len(t.log)
+                try:
+                    clients[c].shell.node.get('/chains/main/blocks/head/header')
+                except (RpcError, requests.exceptions.ConnectionError):
+                    pass
+                reqs = [e for e in t.log[before:] if e[0] == 'req']
+                ctx.count('http_requests', len(reqs))
+                i = sent[c]
+                sent[c] += 1
+                if not reqs:
+                    return ctx.violation('C28|no-request|pool-client', 'client %d request %d issued no HTTP request' % (c, i), case)
+                if not reqs[0][2].startswith(uris[i % n] + '/'):
+                    return ctx.violation('C28|wrong-node|pool-client|%s' % ('fresh-client' if i == 0 else 'other-client-in-between'),
+                                         'request %d of client %d went to %s, expected node %d (%s)' % (i, c, reqs[0][2], i % n, uris[i % n]), case)
+    finally:
+        mixin.nodes.pop(net, None)
+    ctx.count('histories_checked')
+
+
 def run(ctx):
     maxlen = ctx.pick(5, 7)
     ctx.rule = ('all outcome sequences over %s of length 1..%d (full alphabet to length %d, then {ok,e500,conn,transient_ok}) '
-                'for n=1..4 nodes (and node lists of 2..4 entries in which an address is configured more than once), alternating get/post; non-trivial = more than one node and at least one failing or '
+                'for n=1..4 nodes (and node lists of 2..4 entries in which an address is configured more than once), alternating get/post; plus clients made by pytezos.using(shell=<network>.pool) for a configured network of 1..4 addresses, created one after the other and used alternately; non-trivial = more than one node and at least one failing or '
                 'retried request before the last one' % (OUTCOMES, maxlen + 2, maxlen))
     ctx.exhaustive = True
     if not R.hooks_reached():
@@ -120,10 +170,23 @@ def run(ctx):
                 i += 1
                 if ctx.mine(i):
                     judge(ctx, len(layout), seq, layout)
+    # clients made by using('<network>.pool'): one after the other, and used alternately
+    if ctx.mine(0):
+        for n in (1, 2, 3, 4):
+            for k in range(0, 2 * n + 1):
+                for o in ('ok', 'e500', 'conn'):
+                    judge_pool_clients(ctx, n, [(0, o)] * k + [(1, 'ok'), (1, o), (1, 'ok')] + [(2, o)])
+            for L in range(2, ctx.pick(5, 7)):
+                for who in itertools.product((0, 1), repeat=L):
+                    judge_pool_clients(ctx, n, [(c, ('ok', 'e500', 'conn')[(j + L) % 3]) for j, c in enumerate(who)])
     ctx.require('http_requests', 10)
+    if ctx.mine(0):
+        ctx.require('pool_client_histories', 10)
     ctx.require('histories_with_an_address_configured_twice', 10)
     ctx.require('histories_with_path_prefixed_addresses', 10)
 
 
 def replay(ctx, case):
+    if case.get('pool_clients'):
+        return judge_pool_clients(ctx, case['nodes'], [tuple(p) for p in case['plan']])
     judge(ctx, case['nodes'], case['outcomes'], case.get('layout'), case.get('addressing', 'plain'))
